@@ -9,6 +9,7 @@
 
 vp_cfg_t vp_cfg;
 _Atomic uint64_t vp_progress_ctr;
+_Atomic uint64_t vp_case_ctr;
 
 static int g_argc;
 static char** g_argv;
@@ -52,6 +53,8 @@ static const char* const point_names[FV_POINT_MAX] = {
     [FV_WAKE_SPIN] = "WAKE_SPIN",
     [FV_SET_AND_WAIT] = "SET_AND_WAIT",
     [FV_SCHED_SWAP] = "SCHED_SWAP",
+    [FV_HP_PUBLISH_PRE] = "HP_PUBLISH_PRE",
+    [FV_HP_RELEASED] = "HP_RELEASED",
 };
 
 #define VP_NPOINTS 128  // library points < FV_POINT_MAX, harness-private points 100..127
@@ -399,8 +402,8 @@ static void write_result(const char* status) {
     if (i > 1) fputc(',', f);
     json_str(f, g_argv[i]);
   }
-  fprintf(f, "],\"wall_s\":%.3f,\"progress\":%llu,\"distinct\":%ld", (vp_now_ns() - g_t0) / 1e9,
-          (unsigned long long)atomic_load(&vp_progress_ctr), vp_sig_count());
+  fprintf(f, "],\"wall_s\":%.3f,\"progress\":%llu,\"cases\":%llu,\"distinct\":%ld", (vp_now_ns() - g_t0) / 1e9,
+          (unsigned long long)atomic_load(&vp_progress_ctr), (unsigned long long)atomic_load(&vp_case_ctr), vp_sig_count());
   if (g_inconclusive) {
     fprintf(f, ",\"inconclusive\":");
     json_str(f, g_inconclusive);
@@ -560,3 +563,5 @@ void vp_watchdog_start(int runtime_mode, vp_stranded_cb_t on_stranded) {
   }
   pthread_detach(t);
 }
+
+long vp_thread_hits(int p) { return (p >= 0 && p < VP_NPOINTS) ? g_thr[vp_tid()].hits[p] : 0; }
